@@ -362,8 +362,9 @@ class WorkerPool:
             raise HarnessError('a worker process died while running %s (killed by the operating system - memory exhaustion?)' % getattr(fn, '__name__', fn))
 
     def terminate(self):
+        procs = list((getattr(self.ex, '_processes', None) or {}).values())
         self.ex.shutdown(wait=False, cancel_futures=True)
-        for p in list(getattr(self.ex, '_processes', {}).values()):
+        for p in procs:
             try:
                 p.terminate()
             except Exception:       # noqa: BLE001
